@@ -412,7 +412,7 @@ def family_a(ctx, focus):
                              view="ViewNoEv", kind=bgen.kind_of(rq, rs), tr="httpmem", model="HttpStream"))
     ucon = {"NH": 3 if q else 4, "MaxHdr": 2, "MaxTrl": 1, "Outcomes": '{"resp", "nilresp", "err"}',
             "CancelKinds": '{"cancel"}', "FixClosed": "TRUE", "FixDecode": "TRUE", "Known <-": "KnownOpen"}
-    jobs.append(dict(module="MCInprocUnary", consts=ucon, name="L1-inproc-unary", model="InprocUnary",
+    jobs.append(dict(module="MCInprocUnary", consts=ucon, name="L1-inproc-unary", model="InprocUnary", view="ViewNoEv",
                      invariants=["TypeOK", "Refines", "C05_NoStuck", "C06_NoReadAfterReturn"]))
     if q:
         results = ctx.tlc_many(jobs, timeout=600)
@@ -516,14 +516,19 @@ def http_conf_consts(flags):
             "Statuses": "{0, 1, 2}", "Closers": '{"cs", "cs2"}', "Known": "{}"}
 
 
+def unary_conf_consts(flags):
+    return {"NH": 60, "MaxHdr": 20, "MaxTrl": 20, "Outcomes": '{"resp", "nilresp", "err"}',
+            "CancelKinds": '{"cancel", "deadline"}', "FixClosed": "TRUE", "FixDecode": "TRUE", "Known": "{}"}
+
+
 CONF_KINDS = {"bidi": (True, True), "cstream": (True, False), "sstream": (False, True)}
 
 
 def conformance(ctx, name):
-    """B-conf: the recorded stream runs must be behaviours of the L1 models
-    (silent internal steps, events matched with their arguments): in-process
-    runs of InprocStream, HTTP runs (in-memory transport and loopback TCP) of
-    HttpStream. A run the model cannot explain is MODEL-DRIFT: reported, never
+    """B-conf: the recorded runs must be behaviours of the L1 models (silent
+    internal steps, events matched with their arguments): in-process stream
+    runs of InprocStream, HTTP stream runs (in-memory transport and loopback
+    TCP) of HttpStream, in-process unary runs of InprocUnary. A run the model cannot explain is MODEL-DRIFT: reported, never
     a verdict."""
     d = ctx.scratch.path("run-" + name)
     files = sorted(os.path.join(d, f) for f in os.listdir(d)
@@ -531,17 +536,20 @@ def conformance(ctx, name):
     files = [f for f in files if os.path.getsize(f) > 0]
     if not files:
         return
-    specs = (("TraceInprocStream", "InprocStream", ("inproc",), conf_consts, "l1_conformance"),
-             ("TraceHttpStream", "HttpStream", ("http",), http_conf_consts, "l1_http_conformance"))
+    specs = (("TraceInprocStream", "InprocStream", ("inproc",), conf_consts, "l1_conformance", CONF_KINDS),
+             ("TraceHttpStream", "HttpStream", ("http",), http_conf_consts, "l1_http_conformance", CONF_KINDS),
+             ("TraceInprocUnary", "InprocUnary", ("inproc",), unary_conf_consts, "l1_unary_conformance",
+              {"unary": (False, False)}))
     tasks = []
-    with cf.ThreadPoolExecutor(max_workers=4) as ex:
-        for module, model, trs, consts, key in specs:
+    with cf.ThreadPoolExecutor(max_workers=6) as ex:
+        for module, model, trs, consts, key, kinds in specs:
+            tag = "%s-%s-%s" % (name, model, trs[0])
             tasks.append((model, key, False, ex.submit(
-                vlib.conform, ctx.scratch, module, files, CONF_KINDS, consts, name + "-" + trs[0],
+                vlib.conform, ctx.scratch, module, files, kinds, consts, tag,
                 max_runs=40 if ctx.quick else 400, trs=trs)))
             # the binding binds: the same runs with one logged field altered must all be rejected
             tasks.append((model, key, True, ex.submit(
-                vlib.conform, ctx.scratch, module, files, CONF_KINDS, consts, name + "-" + trs[0] + "-corrupt",
+                vlib.conform, ctx.scratch, module, files, kinds, consts, tag + "-corrupt",
                 max_runs=40 if ctx.quick else 400, corrupt=15, trs=trs)))
     res = {(key, corrupt): (model, fut.result()) for model, key, corrupt, fut in tasks}
     for (key, corrupt), (model, r) in sorted(res.items()):
@@ -605,7 +613,7 @@ def run_pinned(ctx):
 
 
 def check_C01(ctx):
-    family_a(ctx, {"nfree_q": 200, "nfree_t": 5000})
+    family_a(ctx, {"nfree_q": 200, "nfree_t": 5000, "extra": [("sizes", 256)]})
 
 
 def check_C02(ctx):
@@ -621,7 +629,7 @@ def check_C04(ctx):
 
 
 def check_C05(ctx):
-    family_a(ctx, {"extra": [("early", 90), ("stall", 45)]})
+    family_a(ctx, {"extra": [("early", 90), ("stall", 45), ("card", 90)]})
 
 
 def check_C08(ctx):
